@@ -30,8 +30,7 @@ class _Strip(ast.NodeTransformer):
         return n.value
 
     def visit_AsyncFor(self, n):
-        self.generic_visit(n)
-        return ast.For(target=n.target, iter=n.iter, body=n.body, orelse=n.orelse, lineno=0, col_offset=0)
+        return self.visit_For(ast.For(target=n.target, iter=n.iter, body=n.body, orelse=n.orelse, lineno=0, col_offset=0))
 
     def visit_AsyncWith(self, n):
         self.generic_visit(n)
@@ -67,6 +66,14 @@ class _Strip(ast.NodeTransformer):
         if n.value is None:
             return None
         return ast.Assign(targets=[n.target], value=n.value, lineno=0, col_offset=0)
+
+    def visit_For(self, n):
+        # `for v in E: yield v`  is  `yield from E`  (an asynchronous generator cannot use the latter)
+        self.generic_visit(n)
+        if (not n.orelse and len(n.body) == 1 and isinstance(n.body[0], ast.Expr) and isinstance(n.body[0].value, ast.Yield) and isinstance(n.target, ast.Name)
+                and isinstance(n.body[0].value.value, ast.Name) and n.body[0].value.value.id == n.target.id):
+            return ast.Expr(value=ast.YieldFrom(value=n.iter), lineno=0, col_offset=0)
+        return n
 
     def visit_Expr(self, n):
         self.generic_visit(n)
@@ -110,6 +117,29 @@ def twin_table(repo=REPO):
             if isinstance(n, (ast.FunctionDef, ast.AsyncFunctionDef)) and n.name.startswith("_") and (isinstance(n, ast.AsyncFunctionDef) or "_a" + n.name[1:] in {m.name for m in tree.body if isinstance(m, ast.AsyncFunctionDef)}):
                 out.append((f"{os.path.basename(f)}:<helper>.{n.name}", False, hashlib.sha256(_norm(n).encode()).hexdigest()[:24]))
     return out
+
+
+# The twins that are NOT the synchronous method with awaits inserted (each difference was read and found behaviour-preserving:
+# a list built eagerly against an asynchronous generator of the same items, `_alist` / `_achain` / `_aintersection` against
+# `list` / `itertools.chain` / `_intersection`, `getitem_async`, `Filter.resolve_async` binding the awaited test to a name first, an
+# assertion message) and the helpers of the asynchronous paths, with the digest of the difference as reviewed. The Lean side
+# (`JP.Async.twinsOK`) requires every OTHER twin to be equal; for these the digest is advisory: when one changes, C08 widens its
+# differential run (the thorough generator) instead of asserting anything about text it has not seen.
+REVIEWED = {
+    "selectors.py:KeysSelector.resolve": "5b8948373b56ac9a34a3199e", "selectors.py:RecursiveDescentSelector.resolve": "4b5cda5d1b39919fa85585c4",
+    "selectors.py:ListSelector.resolve": "917fc2a47968297dcdf96cea", "selectors.py:Filter.resolve": "45cc2cda168fb5383e2ffd60",
+    "selectors.py:<helper>._alist": "5036877e648d78f2cfe87064", "path.py:JSONPath._resolve": "3ec7717336386acecdc87b12",
+    "path.py:CompoundJSONPath.findall": "0205cee901f36160ec25898a", "path.py:CompoundJSONPath.finditer": "6ac1fdb308f76ef2345870ce",
+    "path.py:<helper>._intersection": "5c2aabe837d6f308531d469c", "path.py:<helper>._aintersection": "cc80fd441adb7272e0fe0cf8",
+    "path.py:<helper>._achain": "7e58c799f85010484db27c2f", "filter.py:SelfPath.evaluate": "ae9ca0b78f578dbfcb70ad94",
+    "filter.py:RootPath.evaluate": "e0f5da885e540fbc55bcf0fb", "filter.py:FilterContextPath.evaluate": "9fe63bf8f0dacbef22071d32",
+    "filter.py:CurrentKey.evaluate": "9c8ea5f9acb006d70652973c", "env.py:JSONPathEnvironment.getitem": "d52d014ddf95c7c9846ae579",
+}
+
+
+def unreviewed(repo=REPO):
+    """the inherently different twins / helpers whose difference is not the one that was read"""
+    return [(k, d) for k, eq, d in twin_table(repo) if not eq and k in REVIEWED and REVIEWED[k] != d]
 
 
 if __name__ == "__main__":
